@@ -71,7 +71,7 @@ Section Main.
   Proof.
     intros HF. destruct (ps_tree_ok_spec t Hok) as [Hwf Hnm].
     destruct (ms_wf_root t Hwf) as (dl & kids & E & _).
-    unfold parse, ps_parse, graph_of.
+    unfold parse, ps_parse, ps_parse_gen, graph_of.
     assert (Hne : ps_ptr_exts t <> []).
     { unfold ps_ptr_exts. intros H. apply map_eq_nil in H.
       pose proof (ms_positions_complete t [] (ms_root_is_dir t Hwf)) as Hin. rewrite H in Hin. exact Hin. }
